@@ -20,7 +20,7 @@
 //! checksum bytes could be a valid bincode discriminant.
 
 use std::fs::{File, OpenOptions};
-use std::io::{self, BufReader, BufWriter, Read, Write};
+use std::io::{self, BufReader, BufWriter, Read, Seek, Write};
 use std::path::{Path, PathBuf};
 
 use serde::{Deserialize, Serialize};
@@ -152,6 +152,7 @@ impl TxWal {
         }
 
         let file = File::open(path)?;
+        let file_len = file.metadata()?.len();
         let mut reader = BufReader::new(file);
         let mut count = 0;
         let mut valid_len = 0u64;
@@ -181,6 +182,11 @@ impl TxWal {
 
             if is_v2 {
                 // V2: skip the remaining payload bytes
+                // A length prefix pointing past the end of the file is a torn tail: do not
+                // allocate for it.
+                if len as u64 > file_len.saturating_sub(reader.stream_position()?) {
+                    break;
+                }
                 let mut data = vec![0u8; len];
                 match reader.read_exact(&mut data) {
                     Ok(()) => {
@@ -193,6 +199,11 @@ impl TxWal {
             } else {
                 // V1: we already read 4 bytes of payload, read the rest
                 if len > 4 {
+                    // A length prefix pointing past the end of the file is a torn tail: do not
+                    // allocate for it.
+                    if (len - 4) as u64 > file_len.saturating_sub(reader.stream_position()?) {
+                        break;
+                    }
                     let mut remaining = vec![0u8; len - 4];
                     match reader.read_exact(&mut remaining) {
                         Ok(()) => {
@@ -410,6 +421,7 @@ impl TxWal {
     /// Returns an error if the file cannot be read or a checksum mismatch is detected.
     pub fn replay_with_validation(&self, verify_checksums: bool) -> io::Result<Vec<TxWalEntry>> {
         let file = File::open(&self.path)?;
+        let file_len = file.metadata()?.len();
         let mut reader = BufReader::new(file);
         let mut entries = Vec::new();
         let mut entry_index = 0u64;
@@ -439,6 +451,11 @@ impl TxWal {
 
             let data = if is_v2 {
                 // V2: checksum_buf contains CRC32, read payload separately
+                // A length prefix pointing past the end of the file is a torn tail: do not
+                // allocate for it.
+                if len as u64 > file_len.saturating_sub(reader.stream_position()?) {
+                    break;
+                }
                 let mut data = vec![0u8; len];
                 match reader.read_exact(&mut data) {
                     Ok(()) => {},
@@ -463,6 +480,12 @@ impl TxWal {
                 data
             } else {
                 // V1: checksum_buf is actually the start of payload
+                // A length prefix pointing past the end of the file is a torn tail: do not
+                // allocate for it.
+                if len.saturating_sub(4) as u64 > file_len.saturating_sub(reader.stream_position()?)
+                {
+                    break;
+                }
                 let mut data = Vec::with_capacity(len);
                 data.extend_from_slice(&checksum_buf);
 
